@@ -1,16 +1,19 @@
 """Explicit small matrices over the rational-function normal form (sa.poly).
 
-Used where the code special-cases a concrete matrix size (``if n_channels == 2: <closed form>``):
-the closed form is evaluated entry by entry on a symbol matrix and compared, as rational functions
-of the entries, with the defining identity.  No code of /repo is run: this interprets the
-statements of one function (assignments, a return, branches decided by the stated assumption)."""
+Used where a concrete matrix size decides: a closed form that the code special-cases
+(``if n_channels == 2: ...``) is evaluated entry by entry on a symbol matrix and compared, as rational
+functions of the entries, with the defining formula (``spec_t`` / ``spec_f``); a generic matrix term that
+is not in a rule's list of accepted forms is refuted - or not - by the explicit matrices for one and two
+channels; and ``formulate`` is run for two channels to see which element is substituted by what.
+No code of /repo is run: the functions are interpreted by the model executor (``MatrixModel`` in
+sa/ncterms.py, domain ``dense``), so helper functions, closures, loops, ``functools.partial`` ... are
+followed like any other spelling."""
 
 from __future__ import annotations
 
-import ast
 from fractions import Fraction
 
-from .loader import AnalysisError, FuncInfo, Tree, unparse
+from .loader import AnalysisError, FuncInfo, Tree
 from .poly import RF, I, equal, sym
 
 
@@ -103,184 +106,127 @@ class Mat:
 
 
 class DenseEval:
-    """Interprets one function on explicit matrices; ``sizes`` binds integer parameters."""
+    """One package function interpreted on explicit matrices: ``ints`` binds the size parameters, ``flags`` the
+    boolean ones, ``extra`` any other model values; ``cls`` is bound to the class object."""
 
-    def __init__(self, tree: Tree, fn: FuncInfo, ints: dict[str, int], flags: dict[str, bool] | None = None):
+    def __init__(self, tree: Tree, fn: FuncInfo, ints: dict[str, int], flags: dict[str, bool] | None = None, extra: dict | None = None):
+        from .ncterms import MatrixModel
+
         self.tree, self.fn = tree, fn
-        self.env: dict[str, object] = dict(ints)
-        self.env.update(flags or {})
+        self.model = MatrixModel(tree, "dense")
+        self.kwargs: dict[str, object] = {**ints, **(flags or {}), **(extra or {})}
+        self.raw = None
 
     def run(self):
-        r = self._block(self.fn.node.body)
-        if r is None:
-            raise DenseError(f"{self.fn.qual}: no return reached")
-        return r
+        """The returned value: a ``Mat`` / ``RF``, or a tuple of them."""
+        fn = self.fn
+        kwargs = dict(self.kwargs)
+        a = fn.node.args
+        names = [x.arg for x in [*a.posonlyargs, *a.args, *a.kwonlyargs]]
+        if names and names[0] in {"cls", "self"} and fn.cls is not None and names[0] not in kwargs:
+            kwargs[names[0]] = self.model.class_object(fn.cls.qual)
+        self.raw = self.model.call(fn, [], kwargs)
+        vals = self.model.results(self.raw)
+        return tuple(vals) if isinstance(self.raw, (tuple, list)) or len(vals) != 1 else vals[0]
 
-    def _truth(self, test: ast.AST) -> bool:
-        v = self.ev(test)
-        if isinstance(v, bool):
-            return v
-        raise DenseError(f"branch on `{unparse(test)}` cannot be decided for the assumed sizes")
 
-    def _block(self, body):
-        for st in body:
-            if isinstance(st, ast.Expr) and isinstance(st.value, ast.Constant):
-                continue
-            if isinstance(st, (ast.Assign, ast.AnnAssign)):
-                if st.value is None:
-                    continue
-                v = self.ev(st.value)
-                targets = st.targets if isinstance(st, ast.Assign) else [st.target]
-                for t in targets:
-                    if isinstance(t, ast.Name):
-                        self.env[t.id] = v
-                    elif isinstance(t, (ast.Tuple, ast.List)) and isinstance(v, tuple) and len(v) == len(t.elts) and all(isinstance(e, ast.Name) for e in t.elts):
-                        for e, x in zip(t.elts, v):
-                            self.env[e.id] = x
-                    else:
-                        raise DenseError(f"assignment target `{unparse(t)}`")
-                continue
-            if isinstance(st, ast.If):
-                r = self._block(st.body if self._truth(st.test) else st.orelse)
-                if r is not None:
-                    return r
-                continue
-            if isinstance(st, ast.Return):
-                return self.ev(st.value)
-            raise DenseError(f"statement `{unparse(st)[:60]}` outside the grammar of the dense evaluator")
-        return None
+def deep_symbols(m: "Mat") -> set:
+    """The symbol atoms ``("sym", name, assumptions)`` a matrix depends on, also below roots and conjugates."""
+    from .poly import D, Poly
 
-    def ev(self, node):
-        if isinstance(node, ast.Constant):
-            if isinstance(node.value, bool):
-                return node.value
-            if isinstance(node.value, int):
-                return node.value
-            raise DenseError(f"constant `{node.value!r}`")
-        if isinstance(node, ast.Name):
-            if node.id in self.env:
-                return self.env[node.id]
-            raise DenseError(f"free name `{node.id}`")
-        if isinstance(node, ast.Attribute):
-            txt = unparse(node)
-            if txt in {"sp.I", "sympy.I"}:
-                return I
-            if node.attr in {"T"}:
-                v = self.ev(node.value)
-                if isinstance(v, Mat):
-                    return v.T()
-            raise DenseError(f"attribute `{txt}`")
-        if isinstance(node, ast.Tuple):
-            return tuple(self.ev(e) for e in node.elts)
-        if isinstance(node, ast.UnaryOp):
-            v = self.ev(node.operand)
-            if isinstance(node.op, ast.USub):
-                return -v if not isinstance(v, int) else -v
-            if isinstance(node.op, ast.Not) and isinstance(v, bool):
-                return not v
-            raise DenseError(f"unary `{unparse(node)}`")
-        if isinstance(node, ast.Compare) and len(node.ops) == 1:
-            a, b = self.ev(node.left), self.ev(node.comparators[0])
-            if isinstance(a, int) and isinstance(b, int):
-                op = node.ops[0]
-                table = {ast.Eq: a == b, ast.NotEq: a != b, ast.Lt: a < b, ast.LtE: a <= b, ast.Gt: a > b, ast.GtE: a >= b}
-                for k, v in table.items():
-                    if isinstance(op, k):
-                        return v
-            raise DenseError(f"comparison `{unparse(node)}`")
-        if isinstance(node, ast.BinOp):
-            a, b = self.ev(node.left), self.ev(node.right)
-            return self._binop(node, a, b)
-        if isinstance(node, ast.Subscript):
-            v = self.ev(node.value)
-            idx = self.ev(node.slice)
-            if isinstance(v, Mat) and isinstance(idx, tuple) and len(idx) == 2 and all(isinstance(i, int) for i in idx):
-                return v.rows[idx[0]][idx[1]]
-            raise DenseError(f"subscript `{unparse(node)}`")
-        if isinstance(node, ast.Call):
-            return self._call(node)
-        raise DenseError(f"expression `{unparse(node)[:60]}`")
+    out: set = set()
+    seen: set = set()
 
-    @staticmethod
-    def _scalar(x):
-        if isinstance(x, int) and not isinstance(x, bool):
-            return RF.const(Fraction(x))
-        return x
+    def visit(a) -> None:
+        if a in seen:
+            return
+        seen.add(a)
+        if isinstance(a, tuple) and a:
+            if a[0] == "sym":
+                out.add(a)
+            elif a[0] == "sqrt" and isinstance(D.radicands.get(a), Poly):
+                for x in D.radicands[a].atoms():
+                    visit(x)
+            elif a[0] == "conj":
+                visit(a[1])
 
-    def _binop(self, node, a, b):
-        op = node.op
-        if isinstance(a, int) and isinstance(b, int) and not isinstance(op, ast.Div):
-            return {ast.Add: a + b, ast.Sub: a - b, ast.Mult: a * b}.get(type(op), None) if type(op) in {ast.Add, ast.Sub, ast.Mult} else (a**b if isinstance(op, ast.Pow) and b >= 0 else self._fail(node))
-        a, b = self._scalar(a), self._scalar(b)
-        if isinstance(op, (ast.Add, ast.Sub)):
-            if isinstance(a, Mat) != isinstance(b, Mat):
-                raise DenseError(f"`{unparse(node)[:60]}` adds a scalar and a matrix (SymPy raises)")
-            return a + b if isinstance(op, ast.Add) else a - b
-        if isinstance(op, (ast.Mult, ast.MatMult)):
-            if isinstance(a, Mat) and isinstance(b, Mat):
-                return a.matmul(b)
-            if isinstance(a, Mat):
-                return a.map(lambda x: x * b)
-            if isinstance(b, Mat):
-                return b.map(lambda x: a * x)
-            return a * b
-        if isinstance(op, ast.Div):
-            if isinstance(b, Mat):
-                raise DenseError("division by a matrix")
-            if isinstance(a, Mat):
-                return a.map(lambda x: x / b)
-            return a / b
-        if isinstance(op, ast.Pow):
-            e = node.right
-            ev = self.ev(e)
-            if isinstance(ev, int):
-                if isinstance(a, Mat):
-                    if ev == -1:
-                        return a.inv()
-                    if ev >= 0:
-                        out = Mat.eye(a.n)
-                        for _ in range(ev):
-                            out = out.matmul(a)
-                        return out
-                else:
-                    return a**ev
-        return self._fail(node)
+    for row in m.rows:
+        for x in row:
+            for a in x.atoms():
+                visit(a)
+    return out
 
-    def _fail(self, node):
-        raise DenseError(f"operation `{unparse(node)[:60]}`")
 
-    def _call(self, node: ast.Call):
-        f = node.func
-        if isinstance(f, ast.Attribute):
-            name = unparse(f)
-            if name in {"sp.eye", "sympy.eye"} and len(node.args) == 1:
-                n = self.ev(node.args[0])
-                if isinstance(n, int):
-                    return Mat.eye(n)
-            if name in {"sp.Matrix", "sympy.Matrix"} and len(node.args) == 1 and isinstance(node.args[0], ast.List):
-                rows = [[self._scalar(self.ev(e)) for e in r.elts] for r in node.args[0].elts if isinstance(r, ast.List)]
-                if rows and all(len(r) == len(rows[0]) for r in rows):
-                    return Mat(rows)
-            if name in {"sp.Rational", "sympy.Rational"} and len(node.args) == 2:
-                a, b = self.ev(node.args[0]), self.ev(node.args[1])
-                if isinstance(a, int) and isinstance(b, int):
-                    return RF.const(Fraction(a, b))
-            if not name.startswith(("sp.", "sympy.")):
-                v = self.ev(f.value)
-                if isinstance(v, Mat) and not node.args:
-                    if f.attr == "inv":
-                        return v.inv()
-                    if f.attr == "trace":
-                        return v.trace()
-                    if f.attr == "det":
-                        return v.det()
-                    if f.attr in {"transpose"}:
-                        return v.T()
-                    if f.attr in {"adjugate"}:
-                        return v.adjugate()
-        callee = self.tree.callee(node, self.fn)
-        if callee and callee.endswith("::create_symbol_matrix") and len(node.args) == 3 and isinstance(node.args[0], ast.Constant):
-            n, m = self.ev(node.args[1]), self.ev(node.args[2])
-            if isinstance(n, int) and isinstance(m, int):
-                return Mat.symbols(node.args[0].value, n, m)
-        raise DenseError(f"call `{unparse(node)[:60]}` outside the grammar of the dense evaluator")
+def rho_atoms(model, n: int, matrix: "Mat | None" = None) -> list[RF]:
+    """The placeholders rho_0 .. rho_{n-1} as the interpreted code constructed them (``Symbol(f"rho{i}")`` with
+    whatever name stem and assumptions it gives them; of several families the one ``matrix`` depends on); the
+    plain symbols if the code constructed none."""
+    import re
+
+    stems: dict = {}
+    for a, (name, _) in (model.symbols.items() if model is not None else ()):
+        mt = re.fullmatch(r"(.*?)(\d+)", name)
+        if mt:
+            stems.setdefault(mt.group(1), {}).setdefault(int(mt.group(2)), []).append(a)
+    full = {st: idx for st, idx in stems.items() if sorted(idx) == list(range(n))}
+    if matrix is not None and len(full) > 0:
+        used = deep_symbols(matrix)
+        in_matrix = {st: idx for st, idx in full.items() if any(a in used for atoms in idx.values() for a in atoms)}
+        for st, idx in in_matrix.items():
+            in_matrix[st] = {i: [a for a in atoms if a in used] or atoms for i, atoms in idx.items()}
+        full = in_matrix or full
+    if len(full) > 1 and "rho" in full:
+        full = {"rho": full["rho"]}
+    if not full:
+        return [RF.atom(("sym", f"rho{i}", ())) for i in range(n)]
+    if len(full) > 1:
+        raise DenseError(f"several families of indexed placeholders are constructed: {sorted(full)}")
+    ((_, idx),) = full.items()
+    if any(len(atoms) != 1 for atoms in idx.values()):
+        raise DenseError("a placeholder is constructed with different assumptions in one evaluation")
+    return [RF.atom(idx[i][0]) for i in range(n)]
+
+
+def _diag(entries: list[RF]) -> Mat:
+    n = len(entries)
+    return Mat([[entries[i] if i == j else RF.const(0) for j in range(n)] for i in range(n)])
+
+
+def spec_t(rel: bool, hat: bool, n: int, model=None, matrix: "Mat | None" = None) -> Mat:
+    """T = K (1 - iK)^-1;  T^ = K (1 - i rho K)^-1,  T = conj(sqrt rho) T^ sqrt(rho)  for n channels."""
+    from .ncterms import conj_rf
+
+    k = Mat.symbols("K", n, n)
+    if not rel:
+        return k.matmul((Mat.eye(n) - k.map(lambda x: I * x)).inv())
+    rho = rho_atoms(model, n, matrix)
+    t_hat = k.matmul((Mat.eye(n) - _diag(rho).matmul(k).map(lambda x: I * x)).inv())
+    if hat:
+        return t_hat
+    sq = [r ** Fraction(1, 2) for r in rho]
+    return _diag([conj_rf(x) for x in sq]).matmul(t_hat).matmul(_diag(sq))
+
+
+def spec_f(rel: bool, hat: bool, n: int, model=None, matrix: "Mat | None" = None) -> Mat:
+    """F = (1 - iK)^-1 P;  F^ = (1 - i K^ rho)^-1 P with K^ = conj(sqrt rho)^-1 K sqrt(rho)^-1,  F = sqrt(rho) F^."""
+    from .ncterms import conj_rf
+
+    k, p = Mat.symbols("K", n, n), Mat.symbols("P", n, 1)
+    if not rel:
+        return (Mat.eye(n) - k.map(lambda x: I * x)).inv().matmul(p)
+    rho = rho_atoms(model, n, matrix)
+    sq = [r ** Fraction(1, 2) for r in rho]
+    k_hat = _diag([RF.const(1) / conj_rf(x) for x in sq]).matmul(k).matmul(_diag([RF.const(1) / x for x in sq]))
+    f_hat = (Mat.eye(n) - k_hat.matmul(_diag(rho)).map(lambda x: I * x)).inv().matmul(p)
+    return f_hat if hat else _diag(sq).matmul(f_hat)
+
+
+def first_difference(a: Mat, b: Mat) -> str | None:
+    """None if the matrices agree entry by entry, else a description of the first entry that differs."""
+    if (a.n, a.m) != (b.n, b.m):
+        return f"shape {a.n}x{a.m} instead of {b.n}x{b.m}"
+    for i in range(a.n):
+        for j in range(a.m):
+            if not equal(a.rows[i][j], b.rows[i][j]):
+                return f"entry [{i},{j}]: {repr(a.rows[i][j])[:200]}  instead of  {repr(b.rows[i][j])[:200]}"
+    return None
